@@ -39,6 +39,14 @@ type Corpus struct {
 	VRules   bool       // extract base-mode instances and run the V-rules on them
 	Modifier bool       // the corpus is generated in modifier mode: instances are the generated flow functions
 	Go       string     // go directive of the synthesised go.mod ("" = 1.19)
+	Reject   bool       // every package of the corpus that holds a cff-tagged file must be refused; nothing else is analysed
+}
+
+// RejectCheck is the outcome for one package of a reject corpus.
+type RejectCheck struct {
+	Key string // corpus/package
+	Bad string // "" = refused with a diagnostic positioned in the package, no output written
+	How string // the first diagnostic
 }
 
 // Result of regenerating the corpora.
@@ -48,6 +56,7 @@ type Result struct {
 	Leftover  []string            // directive calls left in generated code
 	Files     int
 	Packages  int
+	Rejects   []RejectCheck                  // reject corpora: per package
 	GenErrs   []string                       // cff invocations that failed
 	Outside   []FileCmp                      // source vs generated outside directive sites
 	Tags      []FileCmp                      // build-constraint inversion, per file
@@ -140,6 +149,10 @@ func Regenerate(repoDir string, corpora []Corpus) (*Result, error) {
 				}
 				os.WriteFile(gm, []byte(strings.Join(lines, "\n")), 0o644)
 			}
+		}
+		if c.Reject {
+			rejectCorpus(res, c, dst, env, cff)
+			continue
 		}
 		for _, cmdline := range c.Cmds {
 			out, err := run(filepath.Join(dst, cmdline[0]), env, cff, cmdline[1:]...)
@@ -448,4 +461,90 @@ func fileGoMinor(f *ast.File) int {
 		}
 	}
 	return 0
+}
+
+// rejectCorpus runs cff on a corpus whose packages must all be refused and records, per package that holds a
+// cff-tagged file: cff as a whole exited non-zero, printed a diagnostic positioned in a file of that package, and
+// wrote no output file into it.
+func rejectCorpus(res *Result, c Corpus, dst string, env []string, cff string) {
+	// the source corpus must be type-correct under the cff tag: the refusals are about directives, not about Go
+	if pkgs, _, err := loadPkgs(dst, env, "cff"); err != nil {
+		res.Rejects = append(res.Rejects, RejectCheck{Key: c.Name, Bad: "the corpus cannot be loaded: " + err.Error()})
+		return
+	} else {
+		for _, p := range pkgs {
+			for _, e := range p.Errors {
+				res.Rejects = append(res.Rejects, RejectCheck{Key: c.Name + "/" + filepath.Base(p.PkgPath), Bad: "the corpus package does not type-check under the cff tag (the corpus is wrong, not cff): " + e.Error()})
+				return
+			}
+		}
+	}
+	var tagged []string // directories with a cff-tagged file
+	filepath.Walk(dst, func(p string, fi os.FileInfo, err error) error {
+		if err != nil || fi.IsDir() || !strings.HasSuffix(p, ".go") {
+			return nil
+		}
+		b, err := os.ReadFile(p)
+		if err != nil {
+			return nil
+		}
+		for _, l := range strings.Split(string(b), "\n") {
+			if strings.HasPrefix(l, "package ") {
+				break
+			}
+			if strings.HasPrefix(l, "//go:build") && strings.Contains(l, "cff") && !strings.Contains(l, "!cff") {
+				d := filepath.Dir(p)
+				if len(tagged) == 0 || tagged[len(tagged)-1] != d {
+					tagged = append(tagged, d)
+				}
+			}
+		}
+		return nil
+	})
+	for _, cmdline := range c.Cmds {
+		out, err := run(filepath.Join(dst, cmdline[0]), env, cff, cmdline[1:]...)
+		label := strings.Join(cmdline[1:], " ")
+		crashed := strings.Contains(out, "goroutine ") && strings.Contains(out, "panic")
+		for _, d := range tagged {
+			rel, _ := filepath.Rel(dst, d)
+			rc := RejectCheck{Key: c.Name + "/" + rel + " [cff " + label + "]"}
+			diag := ""
+			for _, l := range strings.Split(out, "\n") {
+				if i := strings.Index(l, d+string(filepath.Separator)); i >= 0 && strings.Contains(l[i:], ".go:") {
+					diag = strings.TrimSpace(strings.ReplaceAll(l, dst+string(filepath.Separator), ""))
+					break
+				}
+			}
+			var written []string
+			ents, _ := os.ReadDir(d)
+			for _, e := range ents {
+				if strings.HasSuffix(e.Name(), "_gen.go") || strings.HasSuffix(e.Name(), "_gen_test.go") {
+					written = append(written, e.Name())
+				}
+			}
+			switch {
+			case crashed:
+				rc.Bad = "cff crashed: " + firstLines(out, 3)
+			case err == nil:
+				rc.Bad = "cff exited 0 on a corpus of programs it must refuse"
+			case diag == "":
+				rc.Bad = "cff printed no diagnostic positioned in this package: the program is accepted (or skipped) silently"
+			case len(written) > 0:
+				rc.Bad = "cff reported `" + diag + "` but still wrote " + strings.Join(written, ", ")
+			}
+			rc.How = diag
+			res.Rejects = append(res.Rejects, rc)
+			for _, w := range written {
+				os.Remove(filepath.Join(d, w))
+			}
+		}
+	}
+}
+
+func firstLines(s string, n int) string {
+	ls := strings.Split(strings.TrimSpace(s), "\n")
+	if len(ls) > n {
+		ls = ls[:n]
+	}
+	return strings.Join(ls, " | ")
 }
